@@ -87,7 +87,14 @@ def gen_case(seed):
         # server application that answers it before the handshake completes (0.5-RTT data) — the server
         # then has far more than 3x the received bytes to send to an address it has not validated yet
         opts["resume"] = {}
-        script.append({"t": 0.0, "side": "client", "op": "write", "sid": 44, "n": r2.choice([100, 5000, 40000]), "fin": r2.random() < 0.5})
+        script.append({"t": 0.0, "side": "client", "op": "write", "sid": 44, "n": r2.choice([100, 5000, 40000, r2.randrange(500, 9000), r2.randrange(500, 9000)]), "fin": r2.random() < 0.5})
+        if r2.random() < 0.35:
+            # nothing ever comes back: the client's probe timeouts fire while its Initial keys are still in use and the
+            # congestion window is partly filled with 0-RTT data (probes are allowed a full datagram)
+            fates["blackouts"] = [[0.0, 1e9, "s2c"]]
+            fates["adv_seconds"] = 30.0
+            fates["adv_dgrams"] = 10**6
+            pattern += "+silent-server"
         if r2.random() < 0.7:
             script.append({"t": 0.0, "side": "server", "op": "write", "sid": 44, "n": r2.choice([5000, 40000, 200000]), "fin": True,
                            "early": True, "wait_stream": True})
